@@ -21,3 +21,13 @@ package x509tools
 //@   ensures @rsa_same_modulus_and_exponent ret0 && istype(cur(pub1), *rsa.PublicKey) ==> compares == 1 && allEqual && \
 //@        unbox(cur(pub1), *rsa.PublicKey).E == unbox(cur(pub2), *rsa.PublicKey).E
 //@   ensures @ecdsa_same_point ret0 && istype(cur(pub1), *ecdsa.PublicKey) ==> compares == 2 && allEqual
+
+//@ func (EcdsaSignature).PackFixed
+//@   property C19
+//@   nopanic
+//@   ghost fills int = 0
+//@   before call (*math/big.Int).FillBytes(x, b): assert @r_in_the_first_half_s_in_the_second len(b) == nbytes && (fills == 0 ==> x == sig.R) && (fills == 1 ==> x == sig.S) && fills <= 1
+//@   on call (*math/big.Int).FillBytes(_, _) ret (r): fills = fills + 1
+//@   ensures @two_numbers_of_the_requested_width ret1 == nil ==> len(ret0) == 2 * nbytes && fills == 2 && nbytes > 0
+//@   ensures @refused_or_packed ret1 != nil ==> ret0 == nil
+//@   allocbound 0 2 * nbytes
